@@ -174,6 +174,7 @@ type vRStep struct {
 
 func vRunRingSched(size int, progs [][]string, choose func(step int, en []int, last int) int) (trace []vRStep, log string) {
 	c := vsched.New()
+	c.YieldAfterUnlock = true // what a method does after leaving its critical section is a step of its own
 	c.Install()
 	defer vsched.Uninstall()
 	rb := New[int](int64(size))
@@ -219,6 +220,10 @@ func vRunRingSched(size int, progs [][]string, choose func(step int, en []int, l
 			break
 		}
 		rest = append(rest, strconv.Itoa(v))
+		if len(rest) > 64 { // a corrupted counter (negative length) would make this loop endless
+			rest = append(rest, "UNBOUNDED")
+			break
+		}
 	}
 	fmt.Fprintf(&sb, "end:%s:rest=%s", strings.Join(rs, "|"), strings.Join(rest, "."))
 	return trace, sb.String()
